@@ -565,3 +565,41 @@ def r6_5(ctx):
                 ctx.ob("%s:arith#%d" % (short, k), ok, b.where(loc), "%s of [%s,%s] and [%s,%s] in %s" % (op, ia[0], ia[1], ic[0], ic[1], ty))
     ctx.ob("walking-indices-not-decided", True, "", "%d index/arithmetic checks depend on loop-carried walk positions and are left to the sentinel argument" % nd, nontrivial=False)
     ctx.floor("single-step index obligations", n, 20)
+
+
+def r6_6(ctx):
+    """No attack class is skipped: the answer 'not attacked' (any result that is not the constant
+    true) is reached only after the orthogonal, diagonal and knight loops and the pawn probe have
+    all been passed."""
+    f = ctx.facts
+    b = f.body(ICC)
+    ex = Exprs(b)
+    board, color, sq = _params(b)
+    tl = table_loops(b, ex)
+    loops = b.loops()
+    inloops = set()
+    for h2, b2 in loops.items():
+        inloops |= b2
+    ptests = [t for t in _piece_tests(b, ex, set(b.normal) - inloops) if t[1] == "pawn"]
+    finals = []
+    for loc, st in b.iter_stmts():
+        if st["k"] == "assign" and st["place"]["local"] == 0 and not st["place"]["proj"]:
+            e = ex.rvalue(st["rv"], loc)
+            if e != ("const", True):
+                finals.append(loc)
+    ctx.floor("non-true results of is_check_cords", len(finals), 1)
+    names = {}
+    for h, (body_, tab, item) in tl.items():
+        nm = "orthogonal" if tab == chess.ROOK_DIRS else "diagonal" if tab == chess.BISHOP_DIRS else "knight" if tab == chess.KNIGHT_OFFSETS else "table@%d" % h
+        names[nm] = h
+    if ptests:
+        first = min((t[0] for t in ptests), key=lambda x: len([y for y in b.normal if b.node_dominates(y, x)]))
+        names["pawn"] = first
+    for nm in ("orthogonal", "diagonal", "knight", "pawn"):
+        if nm not in names:
+            ctx.ob("is_check_cords:%s:evaluated" % nm, False, b.file, "no %s attack test found" % nm)
+            continue
+        blk = names[nm]
+        bad = [loc for loc in finals if not b.node_dominates(blk, loc[0])]
+        ctx.ob("is_check_cords:%s:always-evaluated" % nm, not bad, b.where(bad[0]) if bad else b.where(b.term_loc(blk)),
+               "the %s attack test lies on every path to a 'not attacked' answer%s" % (nm, "" if not bad else ": NOT so — it can be skipped (guarded by an extra condition), so some attacks of this kind are never seen"))
